@@ -463,10 +463,149 @@ pub fn gen_cases(mode: &str, tier: &str, seed: u64, out: &str) {
                 }
                 emit(&mut w, format!("h{}k{}-B", h, k), &c, sp2, at, st);
             }
+            // face scan: distorted crystals whose pivot-anchored residual reaches 1.2..1.6 symprec; description B moves the origin
+            // so that one atom lies just inside / outside a cell face.  All atoms x axes x 6 offsets (in units of the padding with
+            // which the neighbour search keeps periodic images) are evaluated natively (number, operation count); B is the first
+            // placement whose answer differs from A's, or a random one when none differs; the pair is judged like every other pair.
+            let nscan = if thorough { 500 } else { 120 };
+            let mut made = 0;
+            let mut k = 200000;
+            while made < nscan {
+                k += 1;
+                let h = rng.range(16, 530) as i32;
+                let nops = conv_ops(h).len();
+                if nops > 16 || nops < 4 {
+                    continue;
+                }
+                let exact = crystal(h, &mut rng, 2);
+                let sp = *rng.pick(&[1e-3, 1e-2]);
+                let mut found = None;
+                for _try in 0..12 {
+                    let cand = exact.noise_atoms(&mut rng, 0.3 * sp, 0.45 * sp, 0.6);
+                    let prof = residual_profile(&cand.cell, 0.1);
+                    let good: Vec<&(f64, f64)> = prof.iter().filter(|x| x.0 < 0.8 * sp).collect();
+                    let near = prof.iter().filter(|x| x.0 < 1.3 * sp).count();
+                    if good.len() == nops && near == nops && good.iter().all(|x| x.1 < 1.6 * sp) && good.iter().any(|x| x.1 > 1.2 * sp) {
+                        found = Some(cand);
+                        break;
+                    }
+                }
+                let mut base = match found {
+                    Some(x) => x,
+                    None => continue,
+                };
+                made += 1;
+                base.truth.steps.push("distort-rough".into());
+                let st = Setting::Spglib;
+                let at = AngleTolerance::Default;
+                let only = ONLY_TAG.with(|t| t.borrow().clone());
+                let tag_a = format!("h{}k{}-A", h, k);
+                let tag_b = format!("h{}k{}-B", h, k);
+                if let Some(t) = &only {
+                    if *t != tag_a && *t != tag_b {
+                        // replay of another case: keep the random stream in step without evaluating the scan
+                        let _ = (rng.range(0, base.cell.num_atoms() as i64 - 1), rng.range(0, 2), rng.range(0, 5));
+                        continue;
+                    }
+                }
+                emit(&mut w, tag_a, &base, sp, at, st);
+                let key = |c: &Crystal| match run_dataset(&c.cell, sp, at, st) {
+                    Ok(Ok(d)) => format!("{} {}", d.number, d.operations.len()),
+                    Ok(Err(e)) => format!("err {}", err_name(&e)),
+                    Err(m) => format!("panic {}", m),
+                };
+                let k0 = key(&base);
+                let bb = base.cell.lattice.basis;
+                let padding = 2.0 * (2.0 * sp) / (3.0 * (bb * bb.transpose()).trace()).sqrt();
+                let offsets = [1.05, 1.3, 1.6, 1.9, -0.8, -0.4];
+                let place = |j: usize, axis: usize, f: f64| {
+                    let mut s = Vector3::zeros();
+                    s[axis] = base.cell.positions[j][axis] - f * padding;
+                    base.shift_origin(&s)
+                };
+                let mut chosen = None;
+                let mut scanned = 0;
+                'scan: for j in 0..base.cell.num_atoms() {
+                    for axis in 0..3 {
+                        for f in offsets {
+                            scanned += 1;
+                            let c = place(j, axis, f);
+                            if key(&c) != k0 {
+                                chosen = Some(c);
+                                break 'scan;
+                            }
+                        }
+                    }
+                }
+                let (rj, ra, rf) = (rng.range(0, base.cell.num_atoms() as i64 - 1) as usize, rng.range(0, 2) as usize, rng.range(0, 5) as usize);
+                let mut cb = chosen.unwrap_or_else(|| place(rj, ra, offsets[rf]));
+                cb.truth.steps.push(format!("facescan{}", scanned));
+                emit(&mut w, tag_b, &cb, sp, at, st);
+            }
         }
         // atoms on tabulated Wyckoff positions (C07, C16(i)): generator in wyckoff.rs
         "wyckoff" => crate::wyckoff::gen_cases(thorough, seed, &mut rng, &mut |tag, c, sp, at, st| emit(&mut w, tag, c, sp, at, st)),
         _ => panic!("unknown mode"),
     }
     w.finish();
+}
+
+/// `face-probe <n>`: development probe (not used by a check).  Distorted crystals as in the `meta` mode (premise validated by
+/// `residual_profile`); for each, the origin is moved so that one atom lies just INSIDE a cell face by 1.05..1.9 x the kd-tree
+/// padding; prints the cases whose (number, operation count) differ from the unshifted description.
+pub fn face_probe(seed: u64, n: usize) {
+    let mut rng = Rng::new(seed ^ 0xFACE);
+    let mut done = 0;
+    let mut bad = 0;
+    while done < n {
+        let h = rng.range(16, 230 + 300) as i32 % 530 + 1;
+        let nops = conv_ops(h).len();
+        if nops > 16 {
+            continue;
+        }
+        let exact = crystal(h, &mut rng, 2);
+        let sp = *rng.pick(&[1e-3, 1e-2]);
+        let mut found = None;
+        for _try in 0..12 {
+            let cand = exact.noise_atoms(&mut rng, 0.3 * sp, 0.45 * sp, 0.6);
+            let prof = residual_profile(&cand.cell, 0.1);
+            let good: Vec<&(f64, f64)> = prof.iter().filter(|x| x.0 < 0.8 * sp).collect();
+            let near = prof.iter().filter(|x| x.0 < 1.3 * sp).count();
+            if good.len() == nops && near == nops && good.iter().all(|x| x.1 < 1.6 * sp) && good.iter().any(|x| x.1 > 1.2 * sp) {
+                found = Some(cand);
+                break;
+            }
+        }
+        let base = match found {
+            Some(x) => x,
+            None => continue,
+        };
+        done += 1;
+        let r0 = run_dataset(&base.cell, sp, AngleTolerance::Default, Setting::Spglib);
+        let key = |r: &Result<Result<MoyoDataset, MoyoError>, String>| match r {
+            Ok(Ok(d)) => format!("{} {}", d.number, d.operations.len()),
+            Ok(Err(e)) => format!("err {:?}", e),
+            Err(m) => format!("panic {}", m),
+        };
+        let k0 = key(&r0);
+        let bb = base.cell.lattice.basis;
+        let padding = 2.0 * (2.0 * sp) / (3.0 * (bb * bb.transpose()).trace()).sqrt();
+        'search: for j in 0..base.cell.num_atoms() {
+            for axis in 0..3 {
+                for f in [1.05, 1.3, 1.6, 1.9, -0.8, -0.4] {
+                    let mut s = Vector3::zeros();
+                    s[axis] = base.cell.positions[j][axis] - f * padding;
+                    let c = base.shift_origin(&s);
+                    let k = key(&run_dataset(&c.cell, sp, AngleTolerance::Default, Setting::Spglib));
+                    if k != k0 {
+                        bad += 1;
+                        println!("DIFF hall {} sp {} atom {} axis {} f {}: base [{}] shifted [{}]", h, sp, j, axis, f, k0, k);
+                        println!("{}", case_line(&format!("probe{}", done), &c, sp, AngleTolerance::Default, Setting::Spglib).chars().take(300).collect::<String>());
+                        break 'search;
+                    }
+                }
+            }
+        }
+    }
+    println!("face-probe: {} crystals, {} with a description-dependent answer", done, bad);
 }
